@@ -155,6 +155,8 @@ func checkC19(w *World, r *Report) {
 	c19Tables(w, r)
 	c19Recursion(w, r)
 	c19NilCause(w, r)
+	c19RecoverIntoResult(w, r, "C19.8")
+	c19NoLockLeak(w, r)
 	// premise: request goroutines recover (C01.8)
 	c01Recovery(w, r)
 }
